@@ -679,7 +679,7 @@ def fence(ctx, fxs):
             if fn.reaches_without(recv, flush):
                 det.append("receives before the sends were flushed")
             # the phase is bumped only once the receive loop's condition `received < Num` is false
-            if fn.guarded_positions(bump, lambda t: S(t) == "(received < net.Num)", False):
+            if fn.guarded_positions(bump, cmp_pred("received", "<", "net.Num"), False):
                 det.append("phase bumped before Num - 1 messages were received")
             for p, _ in fn.events(bump):
                 h, _ = fn.search([fn.after(p)], stop=lambda e: send(e) or recv(e))
@@ -704,9 +704,10 @@ def fence(ctx, fxs):
                 det.append("receive arguments %s" % ra)
             # count: received starts at 1, loop while received < Num, ++ per successful receive
             init = [S(e.get("init")) for _, e in fn.events(lambda e: e.get("k") == "decl" and e.get("n") == "received")]
-            loops = [b["term"].get("text") for b in fn.blocks.values() if (b.get("term") or {}).get("cls") == "WhileStmt" and
-                     "received" in (b["term"].get("text") or "")]
-            if init != ["1"] or loops != ["received < net.Num"]:
+            loops = [SN(lit(b["term"]["cond"])[0]) for b in fn.blocks.values()
+                     if (b.get("term") or {}).get("cls") in ("WhileStmt", "ForStmt") and b["term"].get("cond") and
+                     "received" in S(b["term"]["cond"])]
+            if init != ["1"] or loops != ["(received < net.Num)"]:       # either spelling of the comparison
                 det.append("receive count: starts at %s, loops while %s" % (init, loops))
             inc = [p for p, e in fn.events(lambda e: e.get("k") == "assign" and e.get("lp") == "received" and e.get("op") == "++")]
             if len(inc) != 1:
